@@ -4,7 +4,7 @@ from __future__ import annotations
 import ast
 from typing import Dict, List, Optional, Tuple
 
-from .core import AnalysisError, ClassInfo, Repo, U, bind_call, paths_of, positional_params
+from .core import AnalysisError, ClassInfo, Repo, U, bind_call, paths_of, positional_params, strip_identity
 
 # how each constructor parameter is expected to be derived from the instance when flattening
 EXPECT_WRITE = {
@@ -41,6 +41,7 @@ def analyse_class(repo: Repo, ci: ClassInfo):
     if len(ps) != 1 or ps[0].end[0] != "return" or not isinstance(ps[0].end[1], ast.Tuple) or len(ps[0].end[1].elts) != 2:
         return [("R5", "unknown", fl.lineno, "", f"{ci.name}.__tensor_flatten__ shape not recognised", "")]
     inner_e, meta_e = ps[0].end[1].elts
+    inner_e = strip_identity(inner_e)
     if not isinstance(inner_e, (ast.List, ast.Tuple)) or not all(isinstance(x, ast.Constant) for x in inner_e.elts) or not isinstance(meta_e, ast.Dict):
         return [("R5", "unknown", fl.lineno, "", f"{ci.name}.__tensor_flatten__ does not return literal (list, dict)", "")]
     inner = [x.value for x in inner_e.elts]
@@ -132,6 +133,33 @@ def analyse_class(repo: Repo, ci: ClassInfo):
     return res
 
 
+def _const_seq(fn, it):
+    """Values of a constant sequence expression: a literal, a module-level constant, a constant slice of one, list()/tuple() of one."""
+    from .core import fold_int, module_lookup
+    it = strip_identity(it)
+    if isinstance(it, ast.Name):
+        v = module_lookup(fn, it.id)
+        return _const_seq(fn, v) if isinstance(v, (ast.List, ast.Tuple)) else None
+    if isinstance(it, (ast.List, ast.Tuple)):
+        return [x.value for x in it.elts] if all(isinstance(x, ast.Constant) for x in it.elts) else None
+    if isinstance(it, ast.Subscript) and isinstance(it.slice, ast.Slice):
+        base = _const_seq(fn, it.value)
+        if base is None:
+            return None
+        try:
+            lo = fold_int(it.slice.lower) if it.slice.lower is not None else None
+            hi = fold_int(it.slice.upper) if it.slice.upper is not None else None
+            st = fold_int(it.slice.step) if it.slice.step is not None else None
+        except Exception:
+            return None
+        if any(x is not None and not isinstance(x, int) for x in (lo, hi, st)):
+            return None
+        if any(node is not None and val is None for node, val in ((it.slice.lower, lo), (it.slice.upper, hi), (it.slice.step, st))):
+            return None
+        return base[slice(lo, hi, st)]
+    return None
+
+
 def analyse_loader(repo: Repo, ci: ClassInfo):
     """load_from_state_dict pops exactly the inner tensor names __tensor_flatten__ lists (recursing for sub-class payloads)."""
     res = []
@@ -140,7 +168,7 @@ def analyse_loader(repo: Repo, ci: ClassInfo):
     if lf is None or fl is None:
         return res
     ps = paths_of(fl)
-    inner = [x.value for x in ps[0].end[1].elts[0].elts]
+    inner = [x.value for x in strip_identity(ps[0].end[1].elts[0]).elts]
     sd, prefix = positional_params(lf)[:2]
     # the loader with its private helpers inlined: every expression of every path, plus the function's own statements
     nodes = list(ast.walk(lf))
@@ -162,8 +190,9 @@ def analyse_loader(repo: Repo, ci: ClassInfo):
         elif isinstance(n, (ast.ListComp, ast.DictComp, ast.SetComp, ast.GeneratorExp)):
             gens = [(g.target, g.iter) for g in n.generators]
         for tgt, it in gens:
-            if isinstance(tgt, ast.Name) and isinstance(it, (ast.List, ast.Tuple)) and all(isinstance(x, ast.Constant) for x in it.elts):
-                iter_lists[tgt.id] = [x.value for x in it.elts]
+            seq = _const_seq(lf, it)
+            if isinstance(tgt, ast.Name) and seq is not None:
+                iter_lists[tgt.id] = seq
     popped, recursed = set(), {}
     for n in nodes:
         if isinstance(n, ast.Call) and isinstance(n.func, ast.Attribute) and n.func.attr == "pop" and U(n.func.value) == sd and n.args:
@@ -183,7 +212,15 @@ def analyse_loader(repo: Repo, ci: ClassInfo):
     for k, cls in recursed.items():
         ok = k.endswith(".")
         res.append(("R1", "ok" if ok else "bad", lf.lineno, f"{ci.name} loader prefix {k}", f"{ci.name} recurses into {cls} with prefix + {k!r} (the writer joins nested names with '.')", "every frozen low-bit state_dict (KeyError)"))
-    ok = any(isinstance(n, ast.Call) and U(n.func) == f"{ci.name}.__tensor_unflatten__" for n in nodes)
+    # the reader: cls.__tensor_unflatten__, or the module-level helper it delegates to with its own (inner_tensors, meta)
+    readers = {f"{ci.name}.__tensor_unflatten__", "cls.__tensor_unflatten__"}
+    un = ci.own("__tensor_unflatten__")
+    if un is not None:
+        up = positional_params(un)
+        rets = [n for n in ast.walk(un) if isinstance(n, ast.Return)]
+        if len(rets) == 1 and isinstance(rets[0].value, ast.Call) and isinstance(rets[0].value.func, ast.Name) and [U(a) for a in rets[0].value.args[:2]] == up[:2]:
+            readers.add(rets[0].value.func.id)
+    ok = any(isinstance(n, ast.Call) and U(n.func) in readers for n in nodes)
     res.append(("R1", "ok" if ok else "bad", lf.lineno, f"{ci.name} loader unflatten", f"{ci.name}.load_from_state_dict rebuilds through {ci.name}.__tensor_unflatten__", "every frozen state_dict"))
     # meta keys: every remaining key under the prefix is popped with the prefix stripped
     strips = any(isinstance(n, ast.Call) and isinstance(n.func, ast.Attribute) and n.func.attr in ("replace", "removeprefix") and n.args and U(n.args[0]) == prefix for n in nodes) or any(isinstance(n, ast.Subscript) and isinstance(n.slice, ast.Slice) and n.slice.lower is not None and U(n.slice.lower) == f"len({prefix})" for n in nodes)
